@@ -481,9 +481,11 @@ static void DecodeAdr(int ArgStartIdx, int ArgEndIdx, unsigned OpcodeLen) {
     if ((AdrArgCnt == 2)
         && ((!as_strcasecmp(pEndArg->str.p_str, "PCR"))
             || (!as_strcasecmp(pEndArg->str.p_str, "PC")))) {
+        tSymbolFlags Flags;
+
         AdrVals[0] = Ord(IndFlag) << 4;
         Offset     = ChkZero(pStartArg->str.p_str, &ZeroMode);
-        AdrInt     = EvalStrIntExpressionOffs(pStartArg, Offset, Int16, &OK);
+        AdrInt = EvalStrIntExpressionOffsWithFlags(pStartArg, Offset, Int16, &OK, &Flags);
         if (OK) {
             AdrInt -= EProgCounter() + 2 + OpcodeLen + Ord(ExtFlag);
 
@@ -491,7 +493,15 @@ static void DecodeAdr(int ArgStartIdx, int ArgEndIdx, unsigned OpcodeLen) {
                 WrError(ErrNum_InvAddrMode);
             }
 
-            else if ((ZeroMode == 2) || ((ZeroMode == 0) && MayShort(AdrInt))) {
+            /* The short offset of a forward reference is measured against where
+               the target was in the previous pass, i.e. behind an instruction of
+               the other size; at the limit the two sizes invalidate each other
+               for ever (e.g. out of a PHASEd block).  Stop shrinking forward
+               references in late passes so that assembly always settles: */
+
+            else if ((ZeroMode == 2)
+                     || ((ZeroMode == 0) && MayShort(AdrInt)
+                         && !(mUsesForwards(Flags) && (PassNo > 8)))) {
                 if (!MayShort(AdrInt)) {
                     WrError(ErrNum_OverRange);
                 } else {
